@@ -14,7 +14,7 @@ RULE = ('case = one real emulate_cycle() on (word, instruction set, IT position,
         'programs; a third of the VMSA steps run with the MMU on and translation registers (TTBCR incl. EAE, TTBRs, DACR, '
         'PRRR/NMRR, MAIR, HCR.VM/VTCR/VTTBR, HTCR/HTTBR) pointing at arbitrary RAM contents; every MCR/MRC (and MCRR/MRRC) '
         'register address of cp14/cp15 written then read on one long-lived instance with an audit that no register object '
-        'changed type, followed by take_reset(); every data-accessing encoding row of the reference tables with register pools, field products and addresses solved onto RAM, device ends and the edges of the address space in twelve contexts (host errors only are judged here); non-trivial = the step got past decode (an opcode object executed or an architectural exception '
+        'changed type, followed by take_reset(); every data-accessing encoding row of the reference tables with register pools, field products and addresses solved onto RAM, device ends and the edges of the address space in twelve contexts (host errors only are judged here); translation walks over generated page-table sets of both descriptor formats with reserved / IMPLEMENTATION DEFINED descriptor bits drawn at random; non-trivial = the step got past decode (an opcode object executed or an architectural exception '
         'was taken); distinct = (instruction set, decoder path id or T16 word>>4, outcome, context)')
 ASSUMPTIONS = ['NotImplementedError escaping emulate_cycle is the documented not-implemented outcome',
                'machine states are generated valid (legal mode for the configuration, J=0, IT=0 in ARM state; VTCR.SL0/T0SZ '
@@ -46,6 +46,9 @@ def plan(tier, seed):
     # pools, complete products of the narrow fields, addresses solved onto RAM / device ends / the edges of the address
     # space, both endiannesses, all configurations): instructions whose deeper paths need an access that really reaches memory
     specs += [dict(s_, kind='rows') for s_ in L.plan_rows(ID, ROW_FAMILY, tier, seed, 400, 12000, 16, 32)]
+    # translation walks over GENERATED page tables (the table sets of the C15 check: both descriptor formats, every descriptor
+    # type, reserved and IMPLEMENTATION DEFINED bits drawn at random, walks that complete): host errors only
+    specs += [dict(kind='walks', seed=seed, shard=i, sets=40 if q else 1500, addrs=50 if q else 120) for i in range(4 if q else 16)]
     # system-register sweep: every (coproc 14/15, opc1, CRn, CRm, opc2) written then read back on ONE long-lived
     # instance per shard (state is never restored in between)
     for cp in (14, 15):
@@ -276,6 +279,9 @@ ROW_CTXS = [('v7-vmsa-virt', 'off'), ('v7-vmsa-sec', 'off'), ('v7-pmsa-r', 'off'
 
 def run_shard(spec):
     from vf import trace_decode as td
+    if spec['kind'] == 'walks':
+        from vf.props import c15
+        return c15.decision(spec, pid=ID, host_only=True)
     if spec['kind'] == 'rows':
         def after(ctx, rng, desc):
             r = ctx.cpu.registers
@@ -561,6 +567,10 @@ def finish(agg, tier, seed):
         inc.append('too few steps under a hostile MMU set-up (%d)' % c.get('steps_with_hostile_mmu_setup', 0))
     if c.get('sysreg_steps', 0) < 2 * 16 * 4096 or c.get('type_audits', 0) < 1000:
         inc.append('system-register sweep incomplete (%d steps, %d type audits)' % (c.get('sysreg_steps', 0), c.get('type_audits', 0)))
+    if c.get('row_steps_ok', 0) < 5000 or c.get('addresses_solved_base', 0) < 1000:
+        inc.append('too few row-generated data-access steps (%d, %d with a solved address)' % (c.get('row_steps_ok', 0), c.get('addresses_solved_base', 0)))
+    if c.get('walks_ok', 0) < 300 or c.get('walks_abort', 0) < 300:
+        inc.append('too few translation walks over generated tables (%d completed, %d aborted)' % (c.get('walks_ok', 0), c.get('walks_abort', 0)))
     return dict(inconclusive=inc, coverage=dict(
         exhaustive_subspaces=['all 2^16 Thumb-16 words x {outside IT, inside, last}',
                               'every feasible path of the real ARM / Thumb-32 decoders visited at least once',
